@@ -9,11 +9,52 @@ from gen import emit, structures as G
 from props._util import make_replay, rng_for
 
 LEVEL = "other"
-DEDUCTIVE = []
-TRUSTED = ["numpy", "scipy KD-tree", "mmcif reader", "CPython 3.12"]
-ASSUMPTIONS = ["A-order: the iteration order of query_pairs' result is a function of the set of index pairs (DESIGN 4/C05)",
-               "A-real: equality of decisions under rigid motion up to the property's 1e-6 margins"]
-EXPLANATION = "see DESIGN.md 4/C05"
+_GEOMETRY_LEMMAS = [  # = contracts.geometry_lemmas_c.SMT_LEMMAS (every kind-"smt" lemma of the sidecar)
+    "mul_zero", "mul_one", "mul_eq", "mul_eq2", "sqrt_unique", "lin_zero6", "lin_sum3", "lin_diff2", "trans3", "trans4",
+    "binet_cauchy", "rigid_diff", "det_product", "cross_cofactor", "rot_dot", "rot_det", "rot_cofactor", "rot_cross_0",
+    "rot_cross_1", "rot_cross_2", "rot_cross", "inv_dot_diff", "inv_sqdist", "inv_dist", "inv_volume", "inv_normal_dot",
+    "inv_normal_sqnorm", "inv_offset_num", "inv_torsion", "centroid_2", "centroid_3", "centroid_6", "centroid_8",
+    "centroid_9", "centroid_10", "centroid_11", "centroid_perm_3", "rename_order", "affine_renumbering_increasing",
+    "rename_sorted"]
+
+# deductive part: spec-level LEMMAS only (no function of /repo is put under contract by C05 itself; the code-level contracts whose
+# specs are built from these primitives belong to C03 / C04 / C11 / C18).  `module` only tells the engine which file to parse.
+DEDUCTIVE = [{"module": "rnapolis.tertiary", "sidecar": "contracts.geometry_lemmas_c",
+              "targets": ["lemma:" + l for l in _GEOMETRY_LEMMAS]}]
+TRUSTED = ["numpy", "scipy KD-tree", "mmcif reader", "CPython 3.12",
+           "z3 5.1.0 / cvc5 1.0.3 (every lemma obligation is discharged by z3; ring identities by its polynomial normaliser)",
+           "numpy.linalg.norm(v) is the non-negative real n with n*n == v.v (contracts/externals.py np_norm; used by inv_dist / inv_torsion only)",
+           "pyvc spec evaluation (DESIGN 2.3): vec3 as three reals, x / n for a numeral n as exact division"]
+ASSUMPTIONS = ["A-order: the iteration order of query_pairs' result is a function of the set of index pairs (DESIGN 4/C05); since fix 2e35b7c "
+               "find_pairs iterates sorted(query_pairs(..)) and find_stackings decides every pair independently and sorts its output, so only "
+               "the SET of contacts matters - not a lemma of the deductive part, sampled by the bounded part",
+               "A-real: equality of decisions under rigid motion up to the property's 1e-6 margins; the lemmas are over the real numbers "
+               "(a rotation matrix with R^T R = I and det R = 1 EXACTLY, exact sums and products); float rounding of R p + t, of sums in a "
+               "different order and of the 3-decimal file formats is what the property's margin exclusion is for - bounded part only",
+               "the lemmas are about the spec-level primitives (dot products / oriented volumes / norms of coordinate differences, centroids, "
+               "the lexicographic residue order); that every decision of the annotation IS a function of these is the content of the "
+               "C03 / C04 / C11 / C18 code contracts and, for the code not under contract, an assumption sampled by the bounded part",
+               "acos, atan2 and degrees are functions (equal arguments give equal values); no other property of them is used",
+               "rename_order / rename_sorted take the renaming as component-wise maps on (chain, number, icode) that are strictly increasing "
+               "(stated at the compared keys); Python's str and int comparisons are strict total orders"]
+EXPLANATION = (
+    "Deductive (contracts/geometry_lemmas_c.py, lemma targets only, all proved by z3 in < 0.2 s per obligation): for R given by nine reals with "
+    "R^T R = I (six polynomial equations) and det R = 1, and any translation t - "
+    "rot_dot: (Ru).(Rv) == u.v [certificate: goal - sum m_ij (G_ij - delta_ij) == 0 as a ring identity]; rot_det: oriented volumes, "
+    "det[Ru Rv Rw] == det R det[u v w]; rot_cofactor + rot_cross: R equals its cofactor matrix, (Ru)x(Rv) == R(u x v) [adjugate identity "
+    "det R R^T == (R^T R) adj R]; binet_cauchy: (a x b).(c x d) is a polynomial in dot products. Corollaries for p -> Rp + t, stated for the "
+    "expressions the annotation uses: inv_dot_diff, inv_sqdist, inv_dist (distance tests), inv_volume, inv_normal_dot / inv_normal_sqnorm "
+    "(cos-numerator and squared norms of the base normals cross(v1, v2) of Residue3D.base_normal_vector: stacking angle, same_direction sign), "
+    "inv_offset_num ((g - h).normal: stacking offset test with centroids g, h and the hydrogen-bond-vs-normal test of find_pairs), inv_torsion "
+    "(C18's X, triple product and Y = |v2| T: cis/trans and BPh/BR classes). centroid_n (n = 2, 3, 6, 8, 9, 10, 11): the mean of the moved "
+    "points is the moved mean; centroid_perm_3: means do not depend on the atom order; rename_order / rename_sorted / "
+    "affine_renumbering_increasing: an order-isomorphic renaming of (chain, number, icode) commutes with the residue order and hence with "
+    "sorting. Vacuity: 14 deliberately false siblings (reflection det R = -1, a dropped orthogonality equation, absolute positions, wrong "
+    "divisor, weighted mean, non-strict renaming, ...) are all refuted with models (python -m contracts.geometry_lemmas_c). "
+    "NOT deductive: float rounding and the 1e-6 margins (A-real), the enumeration order of the KD-tree contact set (A-order; repaired in the "
+    "code by sorting), find_atom order-independence under unique atom names (C03/C04 find_atom contract, C08 duplicate filter), and "
+    "PDB-vs-mmCIF agreement (C08/C15). Bounded: corpus structures under random rotations / an exact axis permutation / translations, "
+    "shuffled atom order, order-preserving renaming, PDB vs mmCIF - full interaction lists and secondary structure compared. See DESIGN.md 4/C05.")
 
 
 def summary(structure, back=lambda k: k):
